@@ -54,7 +54,48 @@ var c14Focus = []string{
 	"{% autoescape off %}{% for q in ll %}{{ dur }}{{ q }}{% endfor %}{% endautoescape %}{% firstof sint|safe %}",
 }
 
+type c14Boom struct{}
+
+func (c14Boom) String() string { panic("boom: String() of a context value") }
+
+// c14UserPanic: code of the caller that panics while rendering (the String method of a context
+// value) ends every entry point the same way — whichever way that is
+func c14UserPanic(res *Result) {
+	for _, src := range []string{"head {{ v }} tail", "{% for i in l %}{{ i }}{% if forloop.Last %}{{ v }}{% endif %}{% endfor %}", `{% include "inc.tpl" %}`, "{{ v|upper }}", "{% firstof v %}"} {
+		set := pongo2.NewSet("c14p", &memLoader{files: map[string]string{"inc.tpl": "x{{ v }}y"}})
+		tpl, err := set.FromString(src)
+		if err != nil {
+			continue
+		}
+		res.Cases++
+		res.DistinctNontrivial++
+		ctx := func() pongo2.Context { return pongo2.Context{"v": c14Boom{}, "l": []int{1, 2}} }
+		class := func(f func() error) (c string) {
+			defer func() {
+				if p := recover(); p != nil {
+					c = "panic"
+				}
+			}()
+			if f() != nil {
+				return "error"
+			}
+			return "ok"
+		}
+		got := []string{
+			class(func() error { _, e := tpl.Execute(ctx()); return e }),
+			class(func() error { _, e := tpl.ExecuteBytes(ctx()); return e }),
+			class(func() error { return tpl.ExecuteWriter(ctx(), &bytes.Buffer{}) }),
+			class(func() error { return tpl.ExecuteWriterUnbuffered(ctx(), &bytes.Buffer{}) }),
+		}
+		if got[1] != got[0] || got[2] != got[0] || got[3] != got[0] {
+			res.add(Finding{Kind: "oracle", Proj: "variants", Sig: "c14-variants-fail-differently", Case: src + " with v a value whose String() panics",
+				Impl: fmt.Sprintf("Execute:%s ExecuteBytes:%s ExecuteWriter:%s ExecuteWriterUnbuffered:%s", got[0], got[1], got[2], got[3]), Model: "the four variants fail in the same cases"})
+		}
+	}
+}
+
 func suiteC14(cfg Config, res *Result) {
+	defer c14UserPanic(res)
 	res.Rule = "grammar-generated programs in which the k-th output position is a fault point {{ 1/zz }} (zz = 0: execution error there; zz = 1: fault-free), for every k, plus the same programs without fault; each executed through Execute, ExecuteBytes, ExecuteWriter (to a plain io.Writer, to one that also has WriteString, to a *bytes.Buffer) and ExecuteWriterUnbuffered with a recording writer, and through ExecuteWriter / ExecuteWriterUnbuffered with a writer that starts failing after 0..3 calls (programs include sub-templates), and with contexts the engine rejects (a key that is not an identifier, a key that is an exported macro's name); oracle: the four variants produce the same bytes and fail in the same cases; on failure ExecuteWriter wrote nothing and the unbuffered variant a prefix of the fault-free output; a failing caller's writer makes the call return an error — never a panic — having written a prefix; non-trivial = program with a fault point behind >= 1 output; distinct by (program, fault position)"
 	n := 1500
 	if cfg.Thorough() {
